@@ -120,7 +120,7 @@ def h_newlines(code: str) -> bool:
     pre: len(code) <= 4
     post: _
     """
-    got = get_newline_indices(code)
+    got = list(get_newline_indices(code))
     exp = [i for i in range(len(code)) if code[i] == "\n"]
     ok = got == exp
     # location_to_index inverts the oracle for every offset
@@ -169,14 +169,14 @@ def _lex_sequence(texts):
     bad = []
     for code in texts:
         nls = [i for i, c in enumerate(code) if c == "\n"]
-        if get_newline_indices(code) != nls:
+        if list(get_newline_indices(code)) != nls:
             bad.append("newline-indices-before")
         toks = lu.lex(CharLexer(), code, False)
         exp = [(oracle(i, nls), c) for i, c in enumerate(code) if not c.isspace()]
         got = [((t.location.line, t.location.column), t.value) for t in toks]
         if got != exp:
             bad.append("positions")
-        if get_newline_indices(code) != nls:
+        if list(get_newline_indices(code)) != nls:
             bad.append("newline-indices-after")
     return sorted(set(bad))
 
